@@ -17,6 +17,10 @@ import SpiceEv.Cmd.Battery
 import SpiceEv.Cmd.Strategies
 import SpiceEv.Cmd.Distributed
 import SpiceEv.Cmd.StratDistributed
+import SpiceEv.Cmd.StratFlexWindow
+import SpiceEv.Cmd.StratSchedule
+import SpiceEv.Cmd.StratPeakLoadWindow
+import SpiceEv.Cmd.StratBalancedMarket
 open SpiceEv
 
 def allHandlers : List (String × Handler) :=
@@ -30,6 +34,10 @@ def allHandlers : List (String × Handler) :=
   ++ Cmd.Strategies.handlers
   ++ Cmd.Distributed.handlers
   ++ Cmd.StratDistributed.handlers
+  ++ Cmd.StratFlexWindow.handlers
+  ++ Cmd.StratSchedule.handlers
+  ++ Cmd.StratPeakLoadWindow.handlers
+  ++ Cmd.StratBalancedMarket.handlers
   ++ Cmd.Gen.handlers
   ++ Cmd.Costs.handlers
   ++ Cmd.ScheduleGen.handlers
